@@ -134,6 +134,9 @@ func checkC01(c *Ctx) {
 		checkCallSignature(c, "C01.R12.call-signature", ev)
 	}
 	checkFoldedPatterns(c, "C01.R13.folded-names", gen)
+	if c.Contrib == "" {
+		checkGeneratedCalls(c, "C01.R12.generated-calls", ev)
+	}
 	checkVersionedImports(c, "C01.R14.versioned-imports", gen)
 
 	// ---- R9 code swallowed by a comment
